@@ -503,3 +503,140 @@ def q_size_agreement(task):
     if viols:
         return [_result(task, ex, 'violated', viols[0]['kind'], viols)]
     return [_result(task, ex, 'discharged', nontrivial=True, extra=dict(gbs=gv))]
+
+
+# ------------------------------------------------------------------------------------------------ C09 raw swap
+
+def q_swap(task):
+    """prophy::swap<X> on the big-endian reference bytes (symbolic scalar leaves) between two guard regions: the image
+    becomes the little-endian (native) reference, guards untouched, returned pointer = aligned end (greedy tail: the
+    address of the unlimited member, members before it native)"""
+    name = task['shape']
+    shape = _shape(task)
+    src = X.Z3Source(task['lens'], task['pres'], task['arms'])
+    v = X.make_value_z3(shape, src)
+    be = W.encode(shape, v, '>', ops=X.Z3Ops)
+    le = W.encode(shape, v, '<', ops=X.Z3Ops)
+    Lb = len(be)
+    G = 16
+    mod, ex = _mk(task, max_visits=12)
+    viols = []
+    try:
+        st = L.State()
+        st.pc.extend(src.constraints)
+        obj = ex.new_obj(G + Lb + G, 'guard|message[%d]|guard' % Lb)
+        guards = [z3.BitVec('g%d' % i, 8) for i in range(2 * G)]
+        for i in range(G):
+            st.cmem[obj.base + i] = guards[i]
+            st.cmem[obj.base + G + Lb + i] = guards[G + i]
+        for i, b in enumerate(be):
+            st.cmem[obj.base + G + i] = b
+        # expected end: for a greedy tail, the address of the outermost unlimited member
+        items, total = W.offsets(shape, v)
+        claim_len = Lb
+        last = W.strip(shape).fields[-1]
+        unlimited = last.form == 'greedy' or (last.form == 'plain' and not last.bytes and W.type_layout(last.type)[2] == W.UNLIMITED)
+        if unlimited:
+            claim_len = items[-1][1]
+        res = ex.run('@swap_' + name, [ex.ptr(obj, G)], st)
+        for st2, rv, v2 in res:
+            if v2 is not None:
+                viols.append(_viol(v2, be, cls='swap-' + v2.cls))
+                continue
+            want_end = obj.base + G + claim_len
+            m = ex.check(st2, rv.e != want_end)
+            if m is not None:
+                viols.append(dict(cls='swap-end', kind='swap returns %s, expected message start + %d' % (hex(m.eval(rv.e).as_long() - obj.base - G), claim_len), site='swap',
+                                  input_hex=''.join('%02x' % b for b in L.model_bytes(m, be)), expected_end=claim_len))
+            conds = []
+            for i in range(claim_len):
+                conds.append(ex.read8(st2, z3.BitVecVal(obj.base + G + i, 64)) != le[i])
+            for i in range(G):
+                conds.append(ex.read8(st2, z3.BitVecVal(obj.base + i, 64)) != guards[i])
+                conds.append(ex.read8(st2, z3.BitVecVal(obj.base + G + Lb + i, 64)) != guards[G + i])
+            m = ex.check(st2, z3.Or(*conds)) if conds else None
+            if m is not None:
+                got = [m.eval(ex.read8(st2, z3.BitVecVal(obj.base + G + i, 64)), model_completion=True).as_long() for i in range(Lb)]
+                viols.append(dict(cls='swap-image', kind='swapped image differs from the native encoding (or a guard byte changed)', site='swap',
+                                  input_hex=''.join('%02x' % b for b in L.model_bytes(m, be)), got_hex=''.join('%02x' % b for b in got),
+                                  want_hex=''.join('%02x' % b for b in L.model_bytes(m, le)), claim_len=claim_len))
+    except L.Unsupported as u:
+        if viols:
+            return [_result(task, ex, 'violated', 'then inconclusive: %s' % u, viols)]
+        return [_result(task, ex, 'inconclusive', str(u)[:300])]
+    if viols:
+        return [_result(task, ex, 'violated', viols[0]['kind'], viols)]
+    return [_result(task, ex, 'discharged', nontrivial=True, extra=dict(length=Lb))]
+
+
+# ------------------------------------------------------------------------------------------------ C08 raw layout
+
+def q_raw_layout(task):
+    """one struct / union type of the generated raw header: sizeof and offsetof constants equal the wire layout, and
+    every scalar member accessor, overlaid on symbolic bytes, reads / writes exactly the bytes the wire format assigns"""
+    from . import rawharness as R
+    tname = task['type']
+    t = [x for x in R.all_types([_shape(task)]) if x.name == tname][0]
+    mod, ex = _mk(task, max_visits=8)
+    viols = []
+    try:
+        sz, al, stiff = W.type_layout(t)
+        rs = _const_fn(ex, '@rsize_' + tname)
+        if (isinstance(t, W.Union) or stiff == W.FIXED) and rs != sz:
+            viols.append(dict(cls='layout', kind='sizeof(%s) = %d, wire size %d' % (tname, rs, sz), site='sizeof', type=tname))
+        ra = _const_fn(ex, '@ralign_' + tname)
+        if ra != al:
+            viols.append(dict(cls='layout', kind='alignof(%s) = %d, wire alignment %d' % (tname, ra, al), site='alignof', type=tname))
+        groups = [R.union_members(t)] if isinstance(t, W.Union) else R.raw_members(t)
+        nacc = 0
+        for k, ms in enumerate(groups):
+            tag = '%s__p%d' % (tname, k)
+            psize = rs if k == 0 else _const_fn(ex, '@rsize_' + tag)
+            for m in ms:
+                off = _const_fn(ex, '@roff_%s__%s' % (tag, m['name']))
+                if off != m['offset']:
+                    viols.append(dict(cls='layout', kind='offsetof(%s, %s) = %d, wire offset %d' % (R.part_type(tname, k), m['name'], off, m['offset']),
+                                      site='offsetof', type=tname, member=m['name'], part=k))
+                    continue
+                if m['kind'] not in ('scalar', 'flag', 'counter', 'disc', 'array-first') or m['ctype'] in ('float', 'double'):
+                    continue
+                w = m['width']
+                n = max(psize, off + w)
+                obj = ex.new_obj(n, 'overlay %s' % tag)
+                st = L.State()
+                bs = [z3.BitVec('b%d' % i, 8) for i in range(n)]
+                for i, b in enumerate(bs):
+                    st.cmem[obj.base + i] = b
+                r = ex.run('@rget_%s__%s' % (tag, m['name']), [ex.ptr(obj)], st.clone())
+                if len(r) != 1 or r[0][2] is not None:
+                    viols.append(dict(cls='layout', kind='accessor of %s faults' % m['name'], site='get', type=tname, member=m['name']))
+                    continue
+                want = z3.Concat(*reversed(bs[m['offset']:m['offset'] + w])) if w > 1 else bs[m['offset']]
+                got = r[0][1].e
+                if got.size() != want.size() or ex.check(r[0][0], got != want) is not None:
+                    viols.append(dict(cls='layout', kind='reading %s.%s does not yield the %d bytes at wire offset %d' % (tname, m['name'], w, m['offset']),
+                                      site='get', type=tname, member=m['name'], part=k))
+                val = z3.BitVec('val', 8 * w)
+                r = ex.run('@rset_%s__%s' % (tag, m['name']), [ex.ptr(obj), L.Val(val)], st.clone())
+                if len(r) != 1 or r[0][2] is not None:
+                    viols.append(dict(cls='layout', kind='setter of %s faults' % m['name'], site='set', type=tname, member=m['name']))
+                    continue
+                conds = []
+                for i in range(n):
+                    cur = ex.read8(r[0][0], z3.BitVecVal(obj.base + i, 64))
+                    if m['offset'] <= i < m['offset'] + w:
+                        j = i - m['offset']
+                        conds.append(cur != z3.Extract(8 * j + 7, 8 * j, val))
+                    else:
+                        conds.append(cur != bs[i])
+                if ex.check(r[0][0], z3.Or(*conds)) is not None:
+                    viols.append(dict(cls='layout', kind='writing %s.%s changes other bytes than the %d bytes at wire offset %d' % (tname, m['name'], w, m['offset']),
+                                      site='set', type=tname, member=m['name'], part=k))
+                nacc += 1
+    except L.Unsupported as u:
+        if viols:
+            return [_result(task, ex, 'violated', 'then inconclusive: %s' % u, viols)]
+        return [_result(task, ex, 'inconclusive', str(u)[:300])]
+    if viols:
+        return [_result(task, ex, 'violated', viols[0]['kind'], viols)]
+    return [_result(task, ex, 'discharged', nontrivial=nacc > 0, extra=dict(accessors=nacc))]
